@@ -22,6 +22,7 @@ from harness import common  # noqa: E402
 PROPS = {
     "C08": "harness.corr_filter",
     "C10": "harness.corr_layers",
+    "C11": "harness.corr_shuffle",
 }
 
 TRUSTED_BASE = [
